@@ -5,7 +5,16 @@ write / write-with-error / protect / unprotect / apply on real basis-managed obj
 an independent reference model (mc/refmodels/basis_model.py) that tracks every object's
 physical operator in the root basis.  Every history is finally closed and the restoration
 clause is checked on the real Manager and on every object.
+
+Time-dependent rank-4 objects (data[t,i,j,k,l]) are object kinds of their own: `esup`
+(EvolutionSuperOperator, mode "all"), `sup5` (SuperOperator carrying 5-index data) and `relt5`
+(RelaxationTensor carrying 5-index data - the transform inherited by the time-dependent
+relaxation tensors).  Their oracle is the reference-model transform of EVERY time slice.
+`esup` additionally has apply(time, rho) for every time point / "all" / a list of times.  The
+evolution kinds esup / dme / rdme have at(time): an object made of one time slice, created in
+the current basis, which must be correct there and restored like its parent.
 """
+import os
 import sys
 
 import numpy
@@ -81,9 +90,14 @@ PARTKIND = {"op": "op", "rho": "op", "ham": "op", "dmom": "dmom", "sup": "sup",
             "lindten": "sup", "lindop": "ops3", "dme": "dme", "ctx": "op",
             "esup": "sup_t", "sup5": "sup_t", "relt5": "sup_t",
             # objects produced from an esup: apply at one time / at several times, at(time)
-            "esup-applied": "op", "esup-applied-evol": "dme", "esup-slice": "sup"}
+            "esup-applied": "op", "esup-applied-evol": "dme", "esup-slice": "sup",
+            # reduced density matrix evolution; one-time objects returned by evolution.at(time)
+            "rdme": "dme", "dme-slice": "op", "rdme-slice": "op"}
 # which deterministic array set a kind is (over)written with
-VALKIND = {"esup-applied": "op", "esup-applied-evol": "dme", "esup-slice": "sup"}
+VALKIND = {"esup-applied": "op", "esup-applied-evol": "dme", "esup-slice": "sup",
+           "rdme": "dme", "dme-slice": "rho", "rdme-slice": "rho"}
+# kinds with a method at(time) that returns an object made of one time slice -> kind of it
+SLICEOF = {"esup": "esup-slice", "dme": "dme-slice", "rdme": "rdme-slice"}
 
 
 class World:
@@ -130,10 +144,22 @@ class World:
         self.order.append(label)
 
     def okey(self, rec, base):
-        """Violation key of an object-related check.  Objects whose storage is shared with a
-        slice object handed out by EvolutionSuperOperator.at() get a suffix of their own: what
-        goes wrong with them is a different failure (one array transformed by two owners)."""
+        """Violation key of an object-related check.  Objects whose storage is (was found to
+        be) shared with a slice object handed out by EvolutionSuperOperator.at() get a suffix
+        of their own: what goes wrong with them is a different failure (one array transformed
+        by two owners)."""
         return base + ("/storage-shared-with-at-slice" if rec["alias"] else "")
+
+    def _storage_shared(self, o):
+        """Does an object registered with an active basis use the storage of `o`?"""
+        mine = numpy.asarray(o._data)
+        for lst in self.mgr.basis_registered.values():
+            for x in lst:
+                other = getattr(x, "_data", None)
+                if x is not o and isinstance(other, numpy.ndarray) \
+                        and numpy.shares_memory(other, mine):
+                    return True
+        return False
 
     def to_root(self, kind, arr):
         S = self.S_tot()
@@ -156,7 +182,7 @@ class World:
     # -- ops ---------------------------------------------------------------
     def create(self, kind):
         qr = self.qr
-        vals = _vals(kind, 0) if kind != "lindop" else None
+        vals = _vals(VALKIND.get(kind, kind), 0) if kind != "lindop" else None
         if kind == "op":
             from quantarhei.qm import Operator
             o = Operator(data=vals["_data"].copy())
@@ -198,11 +224,11 @@ class World:
             o = RelaxationTensor()
             o.dim = DIM                   # set by every constructor of a concrete tensor class
             o.data = vals["_data"].copy()
-        elif kind == "dme":
-            from quantarhei.qm import DensityMatrixEvolution
+        elif kind in ("dme", "rdme"):
+            from quantarhei.qm import DensityMatrixEvolution, ReducedDensityMatrixEvolution
             ta = qr.TimeAxis(0.0, NT, 1.0)
             r0 = qr.ReducedDensityMatrix(data=_vals("rho", 0)["_data"].copy())
-            o = DensityMatrixEvolution(ta, r0)
+            o = (DensityMatrixEvolution if kind == "dme" else ReducedDensityMatrixEvolution)(ta, r0)
             full = _vals("dme", 0)["_data"]
             o.data[1, :, :] = full[1]
             o.data[2, :, :] = full[2]
@@ -306,8 +332,8 @@ class World:
                 out = numpy.stack([numpy.tensordot(srec["H"]["_data"][t], rho_root)
                                    for t in range(NT)], axis=0)
                 reskind = "esup-applied-evol"
-                if tv == "list":
-                    srec["alias"] = True        # at() hands out views of the storage
+                if tv == "list":                # goes through at(): temporaries made of slices
+                    srec["alias"] = srec["alias"] or self._storage_shared(srec["obj"])
             else:
                 res = srec["obj"].apply(times[tv], rrec["obj"])
                 out = numpy.tensordot(srec["H"]["_data"][tv], rho_root)
@@ -345,21 +371,24 @@ class World:
                    "trace of applied result changed")
 
     def at(self, sl, ti):
-        """EvolutionSuperOperator.at(time): a SuperOperator made of one time slice, created in
-        the basis that is current."""
+        """evolution.at(time) of an EvolutionSuperOperator / (Reduced)DensityMatrixEvolution: an
+        object made of one time slice, created in the basis that is current."""
         srec = self.objs[sl]
+        skind = SLICEOF[srec["kind"]]
         res = srec["obj"].at(float(ti))
         self.nat += 1
         label = "slice%d" % self.nat
-        self._register(label, "esup-slice", res,
+        self._register(label, skind, res,
                        {"_data": numpy.array(srec["H"]["_data"][ti], copy=True)})
-        srec["alias"] = True
-        self.objs[label]["alias"] = True
+        if numpy.shares_memory(numpy.asarray(res._data), numpy.asarray(srec["obj"]._data)):
+            srec["alias"] = True
+            self.objs[label]["alias"] = True
         S = self.S_tot()
-        exp = BM.transform("sup", self.objs[label]["H"]["_data"], S, numpy.linalg.inv(S))
+        exp = BM.transform(PARTKIND[skind], self.objs[label]["H"]["_data"], S,
+                           numpy.linalg.inv(S))
         ok, err = self._cmp(res.data, exp)
         if not ok:
-            self.v("at-not-in-current-basis/esup/depth%d" % self.depth(),
+            self.v("at-not-in-current-basis/%s/depth%d" % (srec["kind"], self.depth()),
                    "%s.at(%d) at depth %d differs from the slice of S^-1 H S by %g"
                    % (sl, ti, self.depth(), err), {"err": err})
 
@@ -534,7 +563,7 @@ class World:
                         ops.append(["apply", s, r])
         if self.nat < cfg.get("nat", 0):
             for lab in self.order:
-                if self.objs[lab]["kind"] == "esup" and self.objs[lab]["prot"] is None:
+                if self.objs[lab]["kind"] in SLICEOF and self.objs[lab]["prot"] is None:
                     for ti in range(NT):
                         ops.append(["at", lab, ti])
         return ops
@@ -554,7 +583,7 @@ class World:
                     cons.append(bool(self._cmp(getattr(o, a), exp)[0]))
                 else:
                     cons.append("off-stack")
-            objs.append([lab, tag, rec["prot"], reg, cons,
+            objs.append([lab, tag, rec["prot"], reg, cons, rec["alias"],
                          [numpy.round(rec["H"][a], 6).tobytes().hex()[:40] + str(hash(
                              numpy.round(rec["H"][a], 6).tobytes())) for a in self.attrs(lab)]])
         return [[l["name"] for l in self.levels], list(m.basis_stack), objs,
@@ -590,18 +619,32 @@ def sections(tier):
     secs = []
     if tier == "quick":
         for k in ALL_KINDS:
+            # sup5 goes through the same transform code as esup: one level less in this tier
             secs.append(("kind-" + k, {"ctx": ["A", "B"], "kinds": [k], "nobj": 1, "nest": 2,
-                                       "nexc": 1, "protect": True}, 5))
+                                       "nexc": 1, "protect": True}, 4 if k == "sup5" else 5))
         secs.append(("mixed", {"ctx": ["A", "C"], "kinds": ["op", "sup", "rho"], "nobj": 2,
                                "nest": 2, "nexc": 1, "protect": False}, 4))
-        secs.append(("apply-sup", {"ctx": ["A", "B"], "kinds": [], "nobj": 0, "nest": 2, "nexc": 1,
-                                   "protect": False, "precreate": ["op", "sup"]}, 5))
         secs.append(("apply-lindop", {"ctx": ["A", "B"], "kinds": [], "nobj": 0, "nest": 2,
                                       "nexc": 0, "protect": False,
                                       "precreate": ["rho", "lindop"]}, 5))
         secs.append(("diagonal-context-operators", {"ctx": ["D", "E", "A"], "kinds": ["op"],
                                                     "nobj": 1, "nest": 2, "nexc": 1,
                                                     "protect": False}, 4))
+        # time-dependent superoperator created before any context: apply(time, rho) with every
+        # time argument, and at(time) slices
+        secs.append(("apply-esup", {"ctx": ["A", "B"], "kinds": [], "nobj": 0, "nest": 2,
+                                    "nexc": 0, "protect": False,
+                                    "precreate": ["rho", "esup"]}, 4))
+        secs.append(("at-esup", {"ctx": ["A", "B"], "kinds": [], "nobj": 0, "nest": 2,
+                                 "nexc": 1, "protect": False, "napply": 0, "nat": 1,
+                                 "precreate": ["esup"]}, 4))
+        for k in ("dme", "rdme"):
+            secs.append(("at-" + k, {"ctx": ["A", "B"], "kinds": [], "nobj": 0, "nest": 2,
+                                     "nexc": 1, "protect": False, "napply": 0, "nat": 1,
+                                     "precreate": [k]}, 4))
+        # the largest section comes last: it may use the time the others did not need
+        secs.append(("apply-sup", {"ctx": ["A", "B"], "kinds": [], "nobj": 0, "nest": 2, "nexc": 1,
+                                   "protect": False, "precreate": ["op", "sup"]}, 5))
     else:
         for k in ALL_KINDS:
             secs.append(("kind-" + k, {"ctx": ["A", "B", "C"], "kinds": [k], "nobj": 2,
@@ -619,6 +662,16 @@ def sections(tier):
         secs.append(("diagonal-context-operators", {"ctx": ["D", "E", "A", "C"], "kinds": ["op", "sup"],
                                                     "nobj": 2, "nest": 3, "nexc": 1,
                                                     "protect": True}, 6))
+        secs.append(("apply-esup", {"ctx": ["A", "B", "C"], "kinds": [], "nobj": 0, "nest": 3,
+                                    "nexc": 1, "protect": True,
+                                    "precreate": ["rho", "esup"]}, 6))
+        secs.append(("at-esup", {"ctx": ["A", "B", "C"], "kinds": [], "nobj": 0, "nest": 3,
+                                 "nexc": 1, "protect": True, "napply": 0, "nat": 2,
+                                 "precreate": ["esup"]}, 6))
+        for k in ("dme", "rdme"):
+            secs.append(("at-" + k, {"ctx": ["A", "B", "C"], "kinds": [], "nobj": 0, "nest": 3,
+                                     "nexc": 1, "protect": True, "napply": 0, "nat": 2,
+                                     "precreate": [k]}, 6))
     return secs
 
 
@@ -630,17 +683,25 @@ def replay(case):
 
 def run(run):
     run.rule = ("BFS over histories of enter/exit/exit-by-exception/raise-through-all/create/"
-                "read/write/bad-write/protect/unprotect/apply on real basis-managed objects; one "
-                "section per object kind plus mixed sections; every history is closed and the "
+                "read/write/bad-write/protect/unprotect/apply/at(time) on real basis-managed "
+                "objects (incl. time-dependent rank-4 data[t,i,j,k,l]: every time slice is "
+                "compared); one section per object kind plus mixed sections and sections with "
+                "objects created before any context; every history is closed and the "
                 "restoration clause checked; non-trivial = history that enters a context and "
                 "touches an object")
     run.assumptions = ["context operators are real symmetric 3x3 (one with a degenerate "
                        "spectrum); the implementation's transformation matrix is validated "
                        "(orthogonal, diagonalises the model's operator, ascending) and then used "
                        "by the model, which removes eigenvector gauge freedom",
-                       "protection only in the bracketed form used by the package"]
+                       "protection only in the bracketed form used by the package",
+                       "time-dependent objects have 3 time points; the bare RelaxationTensor "
+                       "carrying 5-index data gets its `dim` attribute set by the driver (every "
+                       "concrete tensor class sets it in its constructor)"]
     total_cap = 55 if run.tier == "quick" else 780
     secs = sections(run.tier)
+    only = os.environ.get("VERIF_C04_SECTIONS")      # development aid: run a subset of sections
+    if only:
+        secs = [x for x in secs if x[0] in only.split(",")]
     import time
     t0 = time.time()
     for i, (name, cfg, depth) in enumerate(secs):
